@@ -21,7 +21,7 @@ use crate::sim::*;
 
 /// The object handed to adapt_io: Read + Write over the shared fd.
 #[derive(Debug)]
-pub struct IoObj(pub SharedFd);
+pub struct IoObj(pub SharedFd, pub bool);
 
 impl std::os::fd::AsFd for IoObj {
     fn as_fd(&self) -> std::os::fd::BorrowedFd<'_> {
@@ -60,6 +60,10 @@ impl std::io::Write for IoObj {
         }
     }
     fn flush(&mut self) -> std::io::Result<()> {
+        // "flushy": there is something left to drain as long as the fd takes nothing
+        if self.1 && os::poll_revents(self.0 .0.as_raw_fd()) & (os::POUT | os::PHUP | os::PERR) == 0 {
+            return Err(std::io::ErrorKind::WouldBlock.into());
+        }
         Ok(())
     }
 }
@@ -114,7 +118,7 @@ pub fn alive(s: AdState) -> bool {
     matches!(s, AdState::Held | AdState::InTask(_) | AdState::Given(_))
 }
 
-pub fn adapt_io(sim: &Sim, id: Id, fd: FdSpec, blocking: bool) {
+pub fn adapt_io(sim: &Sim, id: Id, fd: FdSpec, blocking: bool, flushy: bool) {
     let Some(h) = sim.st.borrow().handle.clone() else { return };
     if sim.st.borrow().adapters.contains_key(&id) {
         return;
@@ -173,7 +177,7 @@ pub fn adapt_io(sim: &Sim, id: Id, fd: FdSpec, blocking: bool) {
     }
     let was_nb = os::is_nonblocking(raw);
     let before = h.verif_stats();
-    let Some(r) = guarded(sim, "adapt_io", || h.adapt_io(IoObj(own.clone()))) else { return };
+    let Some(r) = guarded(sim, "adapt_io", || h.adapt_io(IoObj(own.clone(), flushy))) else { return };
     let fault = std::mem::replace(&mut sim.hk.borrow_mut().fault_window, false);
     let mut counters = (0, 0, 0, 0);
     if let Some(o) = inherit {
@@ -469,6 +473,18 @@ impl Future for IoFut {
         loop {
             if sim.is_dead() {
                 return Poll::Pending;
+            }
+            if this.moved >= this.total && this.kind == 8 {
+                // write, then flush: the task is done when flush() is
+                let Some(ad) = this.adapter.as_mut() else { return Poll::Pending };
+                match Pin::new(&mut *ad).poll_flush(cx) {
+                    Poll::Pending => {
+                        sim.probe("io_flush_would_block");
+                        set_waiting(&sim, this.task, true);
+                        return Poll::Pending;
+                    }
+                    Poll::Ready(_) => set_waiting(&sim, this.task, false),
+                }
             }
             if this.moved >= this.total {
                 this.finish(&sim);
